@@ -615,6 +615,9 @@ _reg(DecodeProp(
 TAGS_JUDGED = ["en", "ja", "fr", "und", "zh-Hant", "de"]
 TAGS_REGIONAL = ["en-US", "ja-JP"]      # left unspecified by C18: run, recorded, not judged
 REPORT_REGIONAL = TAGS_REGIONAL + ["ja-Latn", "en-GB"]   # C17: requested between the judged tags; one language throughout
+# languages the library has no names for, in scripts other than Latin (a language matcher tends to treat these differently from
+# fr / de): the report must be the English one, every time it is built
+TAGS_OTHER_SCRIPT = ["ko", "zh", "ru", "ar", "he", "el", "hi", "th"]
 
 
 NAMES_SOURCE = "ast"
@@ -1400,7 +1403,7 @@ class ReportProp(SimpleProp):
         # regional and script variants of the two languages are requested in between (in an order that changes from vector
         # to vector): which language they resolve to is left open by C18, but a report must be in one language throughout,
         # and what is requested for one tag must not change what a later request for another tag gets
-        tags = (TAGS_JUDGED if tier == "thorough" else ["en", "ja", "fr", "und"]) + REPORT_REGIONAL + ["-"]
+        tags = (TAGS_JUDGED if tier == "thorough" else ["en", "ja", "fr", "und"]) + TAGS_OTHER_SCRIPT + REPORT_REGIONAL + ["-"]
         for v in vecs:
             for L in "BTE":
                 # a report of level L is built from a decoder of level L: keep only its metrics
@@ -1517,7 +1520,9 @@ class ExportProp(SimpleProp):
         n = 1500 if tier == "quick" else 200000
         vecs = ["CVSS:3.1/AV:N/AC:L/PR:N/UI:N/S:C/C:H/I:H/A:H", "CVSS:3.0/AV:L/AC:H/PR:L/UI:R/S:U/C:L/I:N/A:H/E:F/RL:W/RC:R/CR:H/MAV:N/MS:C"]
         ops = []
-        modes = ["string", "reader", "chunked", "nilreader", "nilreport", "fail:0", "fail:3", "held", "heldreader"]
+        modes = ["string", "reader", "chunked", "nilreader", "nilreport", "fail:0", "fail:3", "held", "heldreader",
+                 # a nil report through every path (the nil guard sits in ExportWithString only; ExportWith reaches it after reading)
+                 "nilreport+reader", "nilreport+chunked", "nilreport+string"]
         seen_t = []
         for i in range(n):
             k = 1 + rng.below(4)
@@ -1574,7 +1579,7 @@ class ExportProp(SimpleProp):
         if mode in ("nilreader",) or mode.startswith("fail:"):
             if err != "InvalidTemplate" or out != "noout":
                 msgs.append("%s reader: result %s" % (mode, lib))
-        elif mode == "nilreport":
+        elif mode == "nilreport" or mode.startswith("nilreport+"):
             if err != "NullPointer" or out != "noout":
                 msgs.append("nil report: result %s" % lib)
         elif ref.startswith("out:"):
@@ -1646,7 +1651,7 @@ def gen_history(rng, nshared=0, shared_desc=None, maxops=40):
         elif c < 92:
             i = rng.below(len(slots))
             if slots[i][0] == 3:
-                ops.append("R%d,%s" % (i, rng.choice(["en", "ja", "fr", "-", "-", "ja"])))
+                ops.append("R%d,%s" % (i, rng.choice(["en", "ja", "fr", "-", "-", "ja", "ko", "zh", "ru"])))
         else:
             i = rng.below(len(slots))
             if slots[i][0] == 3:
@@ -1908,7 +1913,12 @@ class ConcProp:
                         Lk = (g + k) % 3
                         h.append("N%d%s" % (ver, "BTE"[Lk]))
                         slot = own + 1 + k
-                        h.append("D%d,%s" % (slot, core.hx(vec.rand_v2(rng, Lk) if ver == 2 else vec.rand_v3(rng, Lk))))
+                        sv = vec.rand_v2(rng, Lk) if ver == 2 else vec.rand_v3(rng, Lk)
+                        # every third decode fails, in all goroutines at about the same time and by the same error path: an unknown
+                        # metric name (the deferred not-supported-metric error), a repeated metric, an empty value
+                        if k % 3 == 0:
+                            sv = [sv + "/ZZ:N", sv + "/" + sv.split("/")[-1], sv + "/ZZ:"][(k // 3) % 3]
+                        h.append("D%d,%s" % (slot, core.hx(sv)))
                         h.append("Q%d" % slot)
                         h.append("Q%d" % (g % 6))
                     hs.append(";".join(h))
